@@ -234,6 +234,39 @@ func c11Case(w *core.Worker, i int) {
 			w.Case(digest+"/"+variant, strings.Contains(res.Stderr, "failed to commit"))
 		}
 	}
+	// the N-th attempt to open or create a file is refused (EMFILE — the descriptor table is full — or ENOSPC / EACCES): whatever
+	// had been acquired before must be given back, also by the acquisition that was half-way through its control files
+	{
+		ns := r.Perm(48)
+		cnt := 10
+		if w.Tier == "thorough" {
+			cnt = 48
+		}
+		for _, n0 := range ns[:cnt] {
+			n := n0 + 3 // the first opens belong to the Go runtime
+			errno := []string{"EMFILE", "ENOSPC", "EACCES", "ENAMETOOLONG"}[n%4]
+			dd := filepath.Join(w.Work, "var")
+			_ = os.RemoveAll(dd)
+			copyDir(base, dd)
+			res := core.RunProc(core.ProcOpts{Dir: dd, Args: csvqArgs("-q", "-f", "JSONL", "--wait-timeout", "0.3", p.Text()), Timeout: 120 * time.Second,
+				Prefix: []string{"strace", "-f", "-o", "/dev/null", "-e", "trace=openat", "-e", fmt.Sprintf("inject=openat:error=%s:when=%d", errno, n)}})
+			variant := fmt.Sprintf("open-refused:%s:%d", errno, n)
+			for _, nm := range core.TakeSnap(dd).Names() {
+				if core.IsControlFile(nm) {
+					w.Violation("leftover-control-file@open-refused", fmt.Sprintf("[%s] control file %s left in the repository after csvq ended (exit %d): %s", variant, nm, res.Code, truncateStr(res.Stderr, 200)),
+						txReplay{Files: small(p.Files), Program: p.Text(), Variant: variant})
+				}
+			}
+			if strings.Contains(res.Stderr, "Fatal Error") || strings.Contains(res.Stderr, "panic:") {
+				w.Violation("internal-failure", fmt.Sprintf("[%s] %s", variant, truncateStr(res.Stderr, 300)), txReplay{Files: small(p.Files), Program: p.Text(), Variant: variant})
+			}
+			if res.Code != 0 {
+				w.Count("runs_ended_by_a_refused_open", 1)
+			}
+			w.Note("signal_points", "open-refused")
+			w.Case(digest+"/"+variant, res.Code != 0)
+		}
+	}
 	// two signals in a row at one point
 	if len(pts) > 2 {
 		pt := pts[r.Intn(len(pts))]
@@ -345,6 +378,28 @@ func c11Locks(w *core.Worker, r *core.Rng, i int) {
 		w.Case(digest+"live"+st, res.Code == 8)
 	}
 	_ = baseSnap
+	// (7) tables whose file name leaves no room for the names of their control files (NAME_MAX is 255 bytes: ".<name>.lock" fits
+	// where ".<name>.<12 characters>.rlock" does not, or neither fits): every statement ends cleanly and leaves nothing
+	for _, ln := range []int{230, 236, 243, 249, 250, 255} {
+		name := strings.Repeat("n", ln-4) + ".csv"
+		for _, st := range []string{"SELECT * FROM `%s`;", "UPDATE `%s` SET a = 2;", "SELECT COUNT(*) FROM `%s` FOR UPDATE;", "SELECT * FROM `%s` x JOIN f1 y ON x.a = y.id; UPDATE f1 SET c1 = 'z' WHERE id = 1;", "CREATE TABLE `X%s` (a, b);"} {
+			d := core.FreshDir(w.Work, "longname")
+			copyDir(base, d)
+			_ = os.WriteFile(filepath.Join(d, name), []byte("a,b\n1,2\n"), 0644)
+			prog := fmt.Sprintf(st, name)
+			res := core.RunProc(core.ProcOpts{Dir: d, Args: csvqArgs("-q", "--wait-timeout", "0.3", prog), Timeout: 60 * time.Second})
+			for _, nm := range core.TakeSnap(d).Names() {
+				if core.IsControlFile(nm) {
+					w.Violation("leftover-control-file@long-file-name", fmt.Sprintf("%s on a table whose file name has %d bytes (exit %d: %s) left %s", truncateStr(st, 60), ln, res.Code, truncateStr(res.Stderr, 120), truncateStr(nm, 40)), txReplay{Files: small(p.Files), Program: prog, Variant: "long file name"})
+				}
+			}
+			if strings.Contains(res.Stderr, "Fatal Error") || strings.Contains(res.Stderr, "panic:") {
+				w.Violation("internal-failure", fmt.Sprintf("[long file name %d] %s", ln, truncateStr(res.Stderr, 300)), txReplay{Files: small(p.Files), Program: prog, Variant: "long file name"})
+			}
+			w.Note("signal_points", "long-file-name")
+			w.Case(digest+"long"+fmt.Sprint(ln)+st, true)
+		}
+	}
 	// (6) a second table whose path differs from a held one only in letter case (a different file on this file system):
 	// whatever csvq makes of it, a run that fails leaves nothing behind
 	up := strings.ToUpper(f1)
